@@ -675,3 +675,10 @@ mod tests {
     */
 }
 
+
+#[cfg(uflow_verif)]
+impl FrameQueue {
+    pub fn verif_window_size(&self) -> u32 { self.window.size }
+    pub fn verif_log_base_id(&self) -> u32 { self.frame_log.base_id() }
+    pub fn verif_log_len(&self) -> u32 { self.frame_log.len() }
+}
